@@ -4,7 +4,7 @@ import json, sys
 pid = sys.argv[1]
 rnd = sys.argv[2] if len(sys.argv) > 2 else '1'
 WT = f'/tmp/seed-{pid}' if rnd == '1' else f'/tmp/seed{rnd}-{pid}'
-VA, VB = {'1': ('A', 'B'), '2': ('C', 'D'), '3': ('E', 'F'), '4': ('G', 'H')}[rnd]
+VA, VB = {'1': ('A', 'B'), '2': ('C', 'D'), '3': ('E', 'F'), '4': ('G', 'H'), '5': ('I', 'J')}[rnd]
 p = [json.loads(l) for l in open('/verif/properties.jsonl') if json.loads(l)['id'] == pid][0]
 print(f"""You are a software engineer reviewing the Go repository google/gce-tcb-verifier (tools that compute SEV-SNP/TDX launch measurements of OVMF firmware, sign them as GCE launch endorsements, and verify endorsements against attestations). You have your own scratch git worktree of it at {WT} (a detached checkout; edit it freely). Work ONLY inside {WT} and {WT}-out; do not read or write /repo, /verif or any other /tmp directory.
 
